@@ -183,14 +183,24 @@ def html_events(s):
     return p.ev
 
 
+class LazyKey:
+    """A key that is not a str instance but prints as text (a lazily translated string)."""
+
+    def __init__(self, s):
+        self.s = s
+
+    def __str__(self):
+        return self.s
+
+
 def _xmlattr_check(items, autospace):
-    """items: list of (key, value).  ValueError, or the tokenizer sees exactly the intended attributes."""
+    """items: list of (key, value).  ValueError / TypeError (key rejected), or the tokenizer sees exactly the intended attributes."""
     d = dict(items)
-    expect = [(ESC(k).lower(), str(v)) for k, v in d.items() if v is not None]
+    expect = [(ESC(str(k)).lower(), str(v)) for k, v in d.items() if v is not None]
     for n in ("on", "off"):
         try:
             out = T_XA[n, autospace].render(d=d)
-        except ValueError:
+        except (ValueError, TypeError):
             continue
         if html_events(out) != [("start", "x", expect)]:
             return False
@@ -213,7 +223,10 @@ def xmlattr_key_ok(codes: List[int], vsel: int, autospace: bool, second: bool) -
         items = [(key, KVALS[vsel])]
         if second and key != "id":
             items = [("id", "i"), (key, KVALS[vsel]), ("skipped", None), ("title", "t")]
-        return _xmlattr_check(items, autospace)
+        if not _xmlattr_check(items, autospace):
+            return False
+        # the same key as an object that is not a str instance
+        return _xmlattr_check([(LazyKey(k) if k == key else k, v) for k, v in items], autospace)
 
 
 def xmlattr_val_ok(codes: List[int], ksel: int) -> bool:
@@ -365,13 +378,14 @@ class HtmlObj:
 
 def escape_ok(codes: List[int], form: int) -> bool:
     """
-    pre: len(codes) <= MAXLEN() and all(0 <= c < len(ALPHA_E) for c in codes) and 0 <= form < 3 and form == P.get("form", form)
+    pre: len(codes) <= MAXLEN() and all(0 <= c < len(ALPHA_E) for c in codes) and 0 <= form < 4 and form == P.get("form", form)
     post: _
     """
     s = decode(codes, ALPHA_E)
-    form = pick(form, 3)
+    form = pick(form, 4)
     with NoTracing():
-        v = [s, Markup(s), HtmlObj(s)][form]
+        # the last form: an object whose __html__ hands back a Markup instance (a widget that renders itself)
+        v = [s, Markup(s), HtmlObj(s), HtmlObj(Markup(s))][form]
         esc = ESC(s)
         # escape: MarkupSafe semantics = plain text is escaped, markup (anything with __html__) is taken as is
         want_escape = esc if form == 0 else s
@@ -494,12 +508,12 @@ def conditions(tier, seed):
     out.append(Cond("urlize_trim", "urlize_trim_ok", mode="B", param=dict(maxtrim=64 if thorough else 48), timeout=to,
                     witnesses=[[0, 26], [2, 30], [16, 12]],
                     bounds=f"{len(TEXTS)} adversarial texts x trim_url_limit 0..{63 if thorough else 47}"))
-    for form in (range(3) if thorough else [None]):
+    for form in (range(4) if thorough else [None]):
         p = dict(maxlen=L + 1) if form is None else dict(maxlen=L + 1, form=form)
-        fs = [0, 1, 2, 0] if form is None else [form] * 4
+        fs = [0, 1, 2, 3] if form is None else [form] * 4
         out.append(Cond("escape_forceescape" if form is None else f"escape_forceescape[form{form}]", "escape_ok", mode="B", param=p, timeout=to,
                         witnesses=[[[0, 2, 4], fs[0]], [[0, 1], fs[1]], [[2, 5, 6], fs[2]], [[], fs[3]]],
-                        bounds=f"strings of <= {L + 1} symbols from {ALPHA_E!r} as plain str / Markup / object with __html__; filters escape, e, forceescape; autoescape on/off"))
+                        bounds=f"strings of <= {L + 1} symbols from {ALPHA_E!r} as plain str / Markup / object with __html__ returning str or Markup; filters escape, e, forceescape; autoescape on/off"))
     for spec in MSPECS:
         for asyncm in ((False, True) if spec in ("join", "join_attr") or thorough else (False,)):
             out.append(Cond(f"margs[{spec}{',async' if asyncm else ''}]", "margs_ok", mode="B", param=dict(spec=spec, asyncm=asyncm, maxlen=L), timeout=to,
